@@ -31,6 +31,10 @@ package contracts
 //@   ensures result0 >= 65536 ==> result1 == 4
 //@   ensures result1 == 1 ==> result0 < 128 || result0 == 65533
 
+//@ func slices.Clone
+//@   trusted documented behaviour of slices.Clone: a new slice holding the same elements
+//@   ensures fresh(result) && len(result) == len(s) && forall k in 0..len(s) :: result[k] == s[k]
+
 //@ func unicode.IsLetter
 //@   trusted unicode.IsLetter agrees with [A-Za-z] on ASCII
 //@   pure
